@@ -36,6 +36,7 @@ type mcase struct {
 	udp   bool
 	model bool               // the Lean driver has an executable model of this matcher
 	cfgFn func(prefix []byte) string // configuration tokens that depend on the prefix (regexp result)
+	wrapDay      int    // clock: days added to the fixed wrap date 2024-05-17 (negative: a winter date)
 	wrapTime     int    // clock: seconds of the (UTC) day + 1 at which the connection was wrapped (0 = now)
 	addr         string // ip matchers: address of the connection
 	addrRemote   bool
@@ -337,7 +338,7 @@ func oneMatch(c mcase, prefix []byte) (verdict string, reads int, alloc uint64) 
 	cx := layer4.WrapConnection(sc, buf, zap.NewNop())
 	if c.wrapTime > 0 {
 		repl := cx.Context.Value(layer4.ReplacerCtxKey).(*caddy.Replacer)
-		repl.Set("l4.conn.wrap_time", time.Date(2024, 5, 17, 0, 0, 0, 0, time.UTC).Add(time.Duration(c.wrapTime-1)*time.Second))
+		repl.Set("l4.conn.wrap_time", time.Date(2024, 5, 17, 0, 0, 0, 0, time.UTC).AddDate(0, 0, c.wrapDay).Add(time.Duration(c.wrapTime-1)*time.Second))
 	}
 	var ms0, ms1 runtime.MemStats
 	func() {
@@ -442,7 +443,7 @@ func routedVerdict(ctx caddy.Context, c mcase, chunks [][]byte) (string, error) 
 	cx := layer4.WrapConnection(sc, make([]byte, 0, 2048), zap.NewNop())
 	if c.wrapTime > 0 {
 		repl := cx.Context.Value(layer4.ReplacerCtxKey).(*caddy.Replacer)
-		repl.Set("l4.conn.wrap_time", time.Date(2024, 5, 17, 0, 0, 0, 0, time.UTC).Add(time.Duration(c.wrapTime-1)*time.Second))
+		repl.Set("l4.conn.wrap_time", time.Date(2024, 5, 17, 0, 0, 0, 0, time.UTC).AddDate(0, 0, c.wrapDay).Add(time.Duration(c.wrapTime-1)*time.Second))
 	}
 	var perr any
 	func() {
